@@ -26,6 +26,15 @@ def load_known():
         return {l.strip() for l in fh if l.strip() and not l.startswith("#")}
 
 
+def load_known_params():
+    import json
+    path = os.path.join(HERE, "known_params.json")
+    if not os.path.isfile(path):
+        return None
+    with open(path) as fh:
+        return json.load(fh)
+
+
 def _renumber(j, lmap, bmap):
     """deep copy of a statement / terminator with locals and block ids renumbered."""
     if isinstance(j, list):
